@@ -200,13 +200,7 @@ func (vfs *BasePathFS) Getwd() (dir string, err error) {
 // The only possible returned error is ErrBadPattern, when pattern
 // is malformed.
 func (vfs *BasePathFS) Glob(pattern string) (matches []string, err error) {
-	matches, err = vfs.baseFS.Glob(vfs.ToBasePath(pattern))
-
-	for i, m := range matches {
-		matches[i] = vfs.FromBasePath(m)
-	}
-
-	return matches, err
+	return avfs.Glob(vfs, pattern)
 }
 
 // Idm returns the identity manager of the file system.
